@@ -1,3 +1,4 @@
 SPECIFICATION Spec
 INVARIANT JacobianIsDerivative
 CHECK_DEADLOCK FALSE
+INVARIANT QuinticDerivativeIdentity
